@@ -82,7 +82,7 @@ def main(pid, tier, replay_path=None, only=None):
         for k, v in gen.items():
             if "::" in k:
                 hs += kani.parse_meta_text(v.decode(), None, k.split("::")[1], k.split("::")[0])
-        sel = [h for h in hs if pid in h.props and (tier == "thorough" or h.tier == "quick")]
+        sel = [h for h in hs if pid in h.props and h.tier != "never" and (tier == "thorough" or h.tier == "quick")]
         if grp.get("tier_only"):
             sel = [h for h in sel if tier == grp["tier_only"] or tier == "thorough"]
         if grp.get("names", {}).get(tier):
